@@ -106,7 +106,7 @@ func errName(err error) string {
 func (harness) Run(cfg xplore.Config, ch vrt.Chooser, trace bool) (xplore.Outcome, *vrt.Result) {
 	d := cfg.Data.(cfgData)
 	var out xplore.Outcome
-	res := vrt.Run(ch, vrt.Options{Trace: trace}, func() {
+	res := vrt.Run(ch, vrt.Options{Trace: trace, FreeSwitch: true}, func() {
 		q := coalesce.NewQueue()
 		ctx, cancel := vcontext.WithCancel(vcontext.Background())
 		nth := len(d.prods) + 1
